@@ -45,8 +45,9 @@ RULE = ("(a) cors.conn: histories of HTTP/1.1 requests over a loopback TCP pair 
         "Extensions::new()/empty() + with_cors(rules)/with_disallow_cors(), marker Prepare handlers bound to a path (prepare_single) that log "
         "their invocation, the response cache on (80 %) or off, and in the 'site' cases additionally files served from a fixture directory "
         "(file system enabled), marker Prepare handlers bound to a predicate (prepare_fn, raw path prefix), a status_code_cache_filter that "
-        "caches every status, handlers that set their own access-control-allow-origin: *, and a Present (predicate: always) and a Post "
-        "extension that log: per request status, every access-control-allow-{origin,methods,headers} / access-control-max-age line, body "
+        "caches every status, handlers that set their own access-control-allow-origin: *, a Present (predicate: always) and a Post "
+        "extension that log, and a secure port with the client speaking HTTP/1.1 over TLS or HTTP/2 (own origin https://<host>, authority "
+        "from the request URI): per request status, every access-control-allow-{origin,methods,headers} / access-control-max-age line, body "
         "and the log are compared with the extracted Coq model (correspondence), with the property's prescription computed from cors_spec2 "
         "(most specific rule by the independent resolver of Model/RuleSet.v; a request is allowed when the rule of the path as requested and "
         "the rule of the resolved path - percent-decoded, repeated slashes collapsed - both allow it) and the reply of the same request "
@@ -75,7 +76,8 @@ ASSUMPTIONS = [
     "Present and Post extensions are application code that runs for every computed / sent response, also for a refusal (observed in the "
     "site cases: log entries P and T); 'the target handler is not run' is proved and checked for request handlers (Prepare, files)",
     "moka as a finite map; sequential histories on one connection; host.options.status_code_cache_filter is a parameter of the theorems",
-    "HTTP/1.1 over an unsecured port: the request's own origin is http://<Host header>; cors.check also covers https request URIs",
+    "the request URI kvarn builds is <scheme of the port>://<Host header or :authority><target>; run: HTTP/1.1 on an unsecured port (most cases), "
+    "HTTP/1.1 over TLS and HTTP/2 over TLS (site-tls / site-h2 cases); cors.check also covers https request URIs; HTTP/3 is not run",
     "request headers are those kvarn's HTTP/1 reader hands on (lower-case names; of a repeated header line the last one counts: parse::headers inserts)",
     "requests that fail sanitize_request (C01) are answered 400/416 before any handler: for them only 'refused => no handler, no ACAO' is prescribed",
     "when a Prime extension rewrites the URI (uri_redirect: <dir>/ -> <dir>/index.html, <p>. -> <p>.html) the rules are looked up with the path "
@@ -104,7 +106,7 @@ LEVEL_TEXT = ("Coq theorems, for every rule set, request (any method token, any 
               "proved at full strength about the repaired code and acao_path_rewrite_v0_refuted / raw_path_v0_refuted / denied_cached_v0_refuted "
               "/ null_origin_v0_refuted are the witnesses on the model of the code as it was. Tied to the code by a differential run of "
               "kvarn::handle_connection over loopback (and Cors::check_cors_request directly) against the extracted model, with cors_spec2 over "
-              "the independent rule resolver and an independent Python decision procedure as oracles. Not covered: HTTP/2 and TLS on the wire, "
+              "the independent rule resolver and an independent Python decision procedure as oracles. Not covered: HTTP/3, "
               "vary rules on Origin, streamed responses, what Present/Post extensions do with a refused request.")
 LEVEL_NOTE = ("Trusted: Coq kernel; extraction (sample re-checked in-kernel); hand transcription of cors.rs / resolve_prime / resolve_prepare / "
               "handle_cache / the file branch validated by the differential run over loopback; http::Uri as a parameter (transcribed parser in the "
@@ -194,14 +196,14 @@ def rule_origins(rules):
     return out
 
 
-def rand_origin(rng, host, rules):
-    """-> (origin bytes or None, class)"""
+def rand_origin(rng, host, rules, scheme=b"http"):
+    """-> (origin bytes or None, class); scheme: of the connection (the request's own origin is scheme://host)"""
     listed = rule_origins(rules) or RULE_ORIGINS
     k = rng.random()
     if k < 0.12:
         return None, "none"
     if k < 0.24:
-        return b"http://" + host, "same"
+        return scheme + b"://" + host, "same"
     if k < 0.48:
         return rng.choice(listed), "listed"
     if k < 0.68:
@@ -241,8 +243,10 @@ def rand_origin(rng, host, rules):
             o = sch + b"://" + hostonly + rng.choice([b":443" if sch.lower() == b"https" else b":80", b":443", b":80"])
         return o, "near:" + v
     if k < 0.78:
-        v = rng.choice([b"https://" + host, b"http://" + host + b":80", b"HTTP://" + host, b"http://" + host.upper(),
-                        b"http://" + host.split(b":")[0] + b":8081", b"http://" + host + b"/", b"ws://" + host, b"http://u@" + host])
+        other = b"https" if scheme == b"http" else b"http"
+        v = rng.choice([other + b"://" + host, scheme + b"://" + host + b":80", scheme.upper() + b"://" + host, scheme + b"://" + host.upper(),
+                        scheme + b"://" + host.split(b":")[0] + b":8081", scheme + b"://" + host + b"/", b"ws://" + host, scheme + b"://u@" + host,
+                        scheme + b"://" + host + b":443"])
         return v, "own-variant"
     if k < 0.86:
         return rng.choice([b"null", b"localhost", b"localhost:8080", host, b"kvarn.org"]), "bare"
@@ -285,16 +289,16 @@ def pct_variant(rng, path):
     return r if q is None else r + b"?" + q
 
 
-def rand_request(rng, rules, warm=False, paths=PATHS, pct=0.0, ext=0.0):
+def rand_request(rng, rules, warm=False, paths=PATHS, pct=0.0, ext=0.0, scheme=b"http", dup=True):
     host = rng.choice(HOSTS)
     path = rng.choice(paths) if rng.random() < 0.95 else rng.choice(ODD_PATHS)
     if rng.random() < pct:
         path = pct_variant(rng, path)
     if warm:
-        origin, cls = (None, "none") if rng.random() < 0.6 else (b"http://" + host, "same")
+        origin, cls = (None, "none") if rng.random() < 0.6 else (scheme + b"://" + host, "same")
         method = rng.choice([b"GET", b"GET", b"HEAD"])
     else:
-        origin, cls = rand_origin(rng, host, rules)
+        origin, cls = rand_origin(rng, host, rules, scheme)
         method = rng.choice([b"GET", b"GET", b"GET", b"HEAD", b"POST", b"PUT", b"DELETE", b"PATCH", b"OPTIONS", b"OPTIONS", b"OPTIONS"])
         if rng.random() < ext:
             method = rng.choice(EXT_METHODS)
@@ -303,7 +307,7 @@ def rand_request(rng, rules, warm=False, paths=PATHS, pct=0.0, ext=0.0):
         extra.append((b"access-control-request-method", rng.choice(METHODS)))
         if rng.random() < 0.4:
             extra.append((b"access-control-request-headers", rng.choice(HEADERS)))
-    if origin is not None and rng.random() < 0.03:     # a second Origin line: the HTTP/1 reader keeps the last one
+    if dup and origin is not None and rng.random() < 0.03:     # a second Origin line: the HTTP/1 reader keeps the last one
         extra.append((b"origin", rng.choice(rule_origins(rules) or RULE_ORIGINS)))
     return req(method, path, host, origin, extra)
 
@@ -316,7 +320,7 @@ def conn_case(c, ops, kind):
     return Case("cors.conn", xl(c, xlist(ops)), "cors.conn_spec", {"kind": kind})
 
 
-def history(rng, n, rules, paths=PATHS, pct=0.0, ext=0.03):
+def history(rng, n, rules, paths=PATHS, pct=0.0, ext=0.03, scheme=b"http", dup=True):
     ops = []
     focus = rng.sample(paths, 3)
     for _ in range(n):
@@ -324,7 +328,7 @@ def history(rng, n, rules, paths=PATHS, pct=0.0, ext=0.03):
         if k < 0.04:
             ops.append(clear())
             continue
-        r = rand_request(rng, rules, warm=k < 0.30, paths=paths, pct=pct, ext=ext)
+        r = rand_request(rng, rules, warm=k < 0.30, paths=paths, pct=pct, ext=ext, scheme=scheme, dup=dup)
         if rng.random() < 0.6:   # concentrate on a few paths so that the cache is warm when the cross-origin request arrives
             l = list(r[1])
             f = rng.choice(focus)
@@ -334,13 +338,13 @@ def history(rng, n, rules, paths=PATHS, pct=0.0, ext=0.03):
     return ops
 
 
-def rand_site(rng):
+def rand_site(rng, transport=0):
     files = [f for f in SITE_FILES if rng.random() < 0.85]
     fns = [(p, rng.choice([0, 2, 2])) for p in rng.sample(SITE_FNS[:4], rng.choice([0, 0, 1, 2]))]
     if rng.random() < 0.06:
         fns.append((b"/", 2))
     flags = (1 if rng.random() < 0.4 else 0) | (2 if rng.random() < 0.3 else 0) | (4 if rng.random() < 0.25 else 0)
-    return site(files, fns, flags)
+    return site(files, fns, flags | (0, 8, 24)[transport])
 
 
 CORPUS_RULES = [rule(b"/api/*", [b"https://icelk.dev", b"http://kvarn.org:8080"], methods=[b"PUT"], headers=[b"content-type"], ms=1500),
@@ -426,6 +430,15 @@ def site_corpus():
                      req(b"GET", b"/open", origin=EVIL), req(b"GET", b"/api/fn", origin=EVIL), req(b"GET", b"/api/fn", origin=b"https://icelk.dev"),
                      req(b"GET", b"/fn/a", origin=EVIL), req(b"PUT", b"/fn/a", origin=EVIL), req(b"GET", b"/%66n/a", origin=EVIL),
                      req(b"OPTIONS", b"/api/fn", origin=EVIL, extra=PRE), req(b"TRACE", b"/fn/a", origin=EVIL)]))
+    # a secure port: the request's own origin is https://<host>; HTTP/2: the authority comes from the request URI
+    for fl in (8, 24):
+        out.append((cfg(1, True, [rule(b"/api/*", [b"https://icelk.dev", b"http://localhost"]), rule(b"/*", allow_all=True)], [(b"/api/x", 2)], True,
+                        site(SITE_FILES, [(b"/fn/", 2)], fl)),
+                    [req(b"GET", b"/api/x", origin=EVIL), req(b"GET", b"/api/x", origin=b"https://localhost"), req(b"GET", b"/api/x", origin=b"http://localhost"),
+                     req(b"GET", b"/api/x", b"example.org", origin=b"https://example.org"), req(b"GET", b"/api/x", b"example.org", origin=b"https://localhost"),
+                     req(b"GET", b"/api/x", b"localhost:8080", origin=b"https://localhost"), req(b"GET", b"/%61pi/secret.json", origin=EVIL),
+                     req(b"OPTIONS", b"/api/x", origin=b"https://localhost", extra=PRE), req(b"OPTIONS", b"/api/x", origin=b"http://localhost", extra=PRE),
+                     req(b"COPY", b"/fn/a", origin=EVIL), req(b"GET", b"/api/x")]))
     # the former known class (fixed: 9dff57d): a path rewritten by uri_redirect after the CORS gate
     kr = [rule(b"/api/index.html", allow_all=True), rule(b"/img/", [b"https://icelk.dev"], methods=[b"PUT"], headers=[b"x-token"], ms=1500)]
     out.append((cfg(0, True, kr, CORPUS_HANDLERS, True, files),
@@ -520,8 +533,11 @@ def generate(rng, tier):
         cases.append(conn_case(cfg(rng.choice([0, 0, 1]), rng.random() < 0.85, rules, handlers(rng), cache=rng.random() < 0.9), ops, "single"))
     for _ in range(nsite):
         rules = rand_rules(rng, site_paths=True)
-        ops = history(rng, rng.randrange(3, 10), rules, paths=SITE_PATHS, pct=0.35, ext=0.08)
-        cases.append(conn_case(cfg(rng.choice([0, 1, 1]), rng.random() < 0.9, rules, handlers(rng, 0.3), rng.random() < 0.85, rand_site(rng)), ops, "site"))
+        tr = rng.choice([0, 0, 0, 0, 1, 2])       # plain HTTP/1.1, HTTP/1.1 over TLS, HTTP/2 over TLS
+        ops = history(rng, rng.randrange(3, 10), rules, paths=SITE_PATHS + (PATHS[:13] if tr else []), pct=0.35 if tr == 0 else 0.15, ext=0.08,
+                      scheme=b"https" if tr else b"http", dup=tr != 2)
+        cases.append(conn_case(cfg(rng.choice([0, 1, 1]), rng.random() < 0.9, rules, handlers(rng, 0.3 if tr == 0 else 0.7), rng.random() < 0.85, rand_site(rng, tr)),
+                               ops, ("site", "site-tls", "site-h2")[tr]))
     for _ in range(ncheck):
         cases.append(check_case(rng, rand_rules(rng), rng.choice([1, 2, 4, 8])))
     return cases
@@ -732,7 +748,8 @@ def _py_oracle(c, impl):
         if op[1][0][1] != 0 or len(x[1]) != 4:
             continue
         origin, host = _hdr(op, b"origin"), _hdr(op, b"host")
-        if origin is None or host is None or origin == b"http://" + host:
+        scheme = b"https" if len(cf) > 5 and cf[5][1][2][1] & 8 else b"http"
+        if origin is None or host is None or origin == scheme + b"://" + host:
             continue
         method, path = op[1][1][1], op[1][2][1].split(b"?")[0]
         verdict = _py_allowed(rules, cf[1][1] == 1, method, path, origin)
